@@ -179,18 +179,18 @@ Proof.
   apply andb_true_iff in H as [H1 H2]. repeat split; auto. intros []; assumption.
 Qed.
 
-Lemma decode_db_of vr o s : decode_db (db_of vr o s) = Some (vr, o, s).
+Lemma decode_db_of vr o s : decode_db (db_of vr o s) = Some (vr, o, (s, o)).
 Proof. reflexivity. Qed.
 
 (* load_model on a valid world: a correct model, or an exception transfer_model answers by recompiling *)
-Lemma load_ok t w o e : routes_ok t = true -> Inv w ->
-  match load_model t w o e with
+Lemma load_gen_ok t w o e bx : routes_ok t = true -> Inv w ->
+  match load_gen t w o e bx with
   | inr m => m = (src w, o)
   | inl x => transfer_recompiles t x = true
   end.
 Proof.
   intros Hr [Hc Hf]. destruct (routes_ok_inv t Hr) as (He & Hi & Hn).
-  unfold load_model. destruct (cfile w) as [[bs mt]|]; [|exact Hn].
+  unfold load_gen. destruct (cfile w) as [[bs mt]|]; [|exact Hn].
   destruct Hf as (Hmt & vr & o' & s & suf & Hd & Hs).
   destruct (mt <? smt w) eqn:Elt; [exact Hi|]. apply Nat.ltb_ge in Elt.
   destruct suf as [|b suf].
@@ -201,6 +201,13 @@ Proof.
     apply Nat.eqb_eq in Eo. subst o'. rewrite (Hs eq_refl Elt). reflexivity.
   - rewrite (dump_prefix_eof (db_of vr o' s) bs (b :: suf) Hd); [apply He|discriminate].
 Qed.
+
+Lemma load_ok t w o e : routes_ok t = true -> Inv w ->
+  match load_model t w o e with
+  | inr m => m = (src w, o)
+  | inl x => transfer_recompiles t x = true
+  end.
+Proof. exact (load_gen_ok t w o e UnpicklingError). Qed.
 
 Lemma Inv_partial w o j : Inv w -> Inv (partial_write w o j).
 Proof.
